@@ -25,6 +25,20 @@
 // lowered so that this takes milliseconds, not a gigabyte); a hang is a case
 // timeout.
 //
+// Repeated references: a second menu over the same slots (repeatMenu, six
+// points) holds, for every referrer, versions that reference the same feature
+// more than once — a path that revisits a point part-way along (out and back and
+// on, figure of eight, two revisits, a point passed three times), a relation or
+// collection listing a member twice (adjacent or apart, same role or different
+// roles) followed by other members, an area naming the same path in two
+// polygons followed by another path — next to versions with the repeat last and
+// versions without a repeat, so that edits replace one by the other. Its states
+// are built statically (basic, compact) and are the start states and targets of
+// the same histories (AddFeature of any variant + the 12 tag edits) on both
+// mutable worlds. The oracle is unchanged: Ref.Referrers is a set, so a referrer
+// that references a feature twice is demanded exactly once, for every feature it
+// references, before and after the repeat.
+//
 // Because a stack overflow kills the whole case, histories whose states are all
 // acyclic (family A: exhaustive bulk) are kept apart from the histories that
 // visit a cyclic state (family C: one case per start state and world kind, so a
@@ -1344,15 +1358,23 @@ func build(tier string) (kit.Space, string) {
 		}
 		for si := 0; si < nrs; si++ {
 			nb, nc := 0, 0
+			// the tagged point only in the thorough tier under the first scheme (tags of
+			// the point do not matter to a static build); quick: the full menu under the
+			// first scheme, the small menu under the second
+			static := func(st state) bool {
+				if thorough {
+					return si == 0 || st[sP0] == 0
+				}
+				return st[sP0] == 0 && (si == 0 || inSmallR(st))
+			}
 			for _, st := range rAll {
-				// quick: the plain point only (tags of the point do not matter to a static build)
-				if thorough || (st[sP0] == 0 && (si == 0 || inSmallR(st))) {
+				if static(st) {
 					cases = append(cases, caseDef{what: cStaticBasic, sch: uint8(si), st: st, m: rm})
 					nb++
 				}
 			}
 			for _, st := range rAll {
-				if !hasCollection(rm, st) && (thorough || (st[sP0] == 0 && (si == 0 || inSmallR(st)))) {
+				if !hasCollection(rm, st) && static(st) {
 					cases = append(cases, caseDef{what: cStaticCompact, sch: uint8(si), st: st, m: rm})
 					nc++
 				}
@@ -1373,53 +1395,67 @@ func build(tier string) (kit.Space, string) {
 		}
 		smallOps := append(ops(rm, rsmall, allSlots), tagOps()...)
 		fullOps := append(ops(rm, rfull, allSlots), tagOps()...)
+		// depth 2 from the start states with at most fewReferrers referrers (quick: over
+		// the small menu's operations, thorough: over the full menu's), from the others
+		// depth 1 (quick) or depth 2 over the small menu's operations (thorough)
+		const fewReferrers = 3
+		var few, many []state
+		for _, st := range startsS {
+			if featureCount(rm, st) <= 1+fewReferrers {
+				few = append(few, st)
+			} else {
+				many = append(many, st)
+			}
+		}
 		if !thorough {
-			// depth 2 from the start states with at most quickReferrers referrers, depth 1 from the others
-			const quickReferrers = 3
-			n2 := 0
 			for _, kind := range []string{kindMutable, kindOverlay} {
 				hc2 := &histCfg{m: rm, sch: sch, kind: kind, depth: 2, ops: smallOps}
 				hc1 := &histCfg{m: rm, sch: sch, kind: kind, depth: 1, ops: smallOps}
 				for _, st := range startsS {
-					if featureCount(rm, st) <= 1+quickReferrers {
+					if featureCount(rm, st) <= 1+fewReferrers {
 						cases = append(cases, caseDef{what: cHist, st: st, hc: hc2, m: rm})
-						n2++
 					} else {
 						cases = append(cases, caseDef{what: cHist, st: st, hc: hc1, m: rm})
 					}
 				}
 			}
-			bound = append(bound, fmt.Sprintf("repeated-reference family, small menu: %d start states x 2 kinds x every sequence of %d operations (AddFeature + 12 tag edits) of length <= 2 from the %d start states with at most %d referrers and <= 1 from the other %d", len(startsS), len(smallOps), n2/2, quickReferrers, len(startsS)-n2/2))
+			bound = append(bound, fmt.Sprintf("repeated-reference family, small menu: %d start states x 2 kinds x every sequence of %d operations (AddFeature + 12 tag edits) of length <= 2 from the %d start states with at most %d referrers and <= 1 from the other %d", len(startsS), len(smallOps), len(few), fewReferrers, len(many)))
 		} else {
 			for _, kind := range []string{kindMutable, kindOverlay} {
-				hc := &histCfg{m: rm, sch: sch, kind: kind, depth: 2, ops: fullOps}
-				for _, st := range startsS {
-					cases = append(cases, caseDef{what: cHist, st: st, hc: hc, m: rm})
+				hcF := &histCfg{m: rm, sch: sch, kind: kind, depth: 2, ops: fullOps}
+				hcS := &histCfg{m: rm, sch: sch, kind: kind, depth: 2, ops: smallOps}
+				for _, st := range few {
+					cases = append(cases, caseDef{what: cHist, st: st, hc: hcF, m: rm})
+				}
+				for _, st := range many {
+					cases = append(cases, caseDef{what: cHist, st: st, hc: hcS, m: rm})
 				}
 			}
-			bound = append(bound, fmt.Sprintf("repeated-reference family, small-menu starts: %d start states x 2 kinds x every sequence of <= 2 of %d operations (AddFeature of every variant of the full menu + 12 tag edits)", len(startsS), len(fullOps)))
+			bound = append(bound, fmt.Sprintf("repeated-reference family, small-menu starts: 2 kinds x every sequence of <= 2 operations: of %d (AddFeature of every variant of the full menu + 12 tag edits) from the %d start states with at most %d referrers, of %d (small menu + 12 tag edits) from the other %d", len(fullOps), len(few), fewReferrers, len(smallOps), len(many)))
+			nF := 0
 			for _, kind := range []string{kindMutable, kindOverlay} {
 				hc := &histCfg{m: rm, sch: sch, kind: kind, depth: 1, ops: fullOps}
 				for _, st := range startsF {
-					if !inSmallR(st) {
+					if !inSmallR(st) || featureCount(rm, st) > 1+fewReferrers {
 						cases = append(cases, caseDef{what: cHist, st: st, hc: hc, m: rm})
+						nF++
 					}
 				}
 			}
-			bound = append(bound, fmt.Sprintf("repeated-reference family, full menu: the other %d start states x 2 kinds x every sequence of <= 1 of %d operations", len(startsF)-len(startsS), len(fullOps)))
-			var few []state
+			bound = append(bound, fmt.Sprintf("repeated-reference family, full menu: the other %d start states x 2 kinds x every sequence of <= 1 of %d operations", nF/2, len(fullOps)))
+			var one []state
 			for _, st := range startsS {
-				if featureCount(rm, st) <= 3 { // the point and at most two referrers
-					few = append(few, st)
+				if featureCount(rm, st) <= 2 { // the point alone or with one referrer
+					one = append(one, st)
 				}
 			}
 			for _, kind := range []string{kindMutable, kindOverlay} {
 				hc := &histCfg{m: rm, sch: sch, kind: kind, depth: 3, ops: smallOps}
-				for _, st := range few {
+				for _, st := range one {
 					cases = append(cases, caseDef{what: cHist, st: st, hc: hc, m: rm})
 				}
 			}
-			bound = append(bound, fmt.Sprintf("repeated-reference family, depth 3: %d start states (at most two referrers) x 2 kinds x every sequence of <= 3 of %d operations", len(few), len(smallOps)))
+			bound = append(bound, fmt.Sprintf("repeated-reference family, depth 3: %d start states (at most one referrer) x 2 kinds x every sequence of <= 3 of %d operations", len(one), len(smallOps)))
 		}
 	}
 
@@ -1455,7 +1491,8 @@ func main() {
 		ID: "C15", Level: "model_checking",
 		Rule: "state = one variant per slot of the reference-graph menu (P0 plain/tagged; paths W0, W1 through or past P0, closed or open; area A0 on W0, W1 or both; relations R0, R1 with point/path/area/relation/collection members incl. self-membership, mutual membership, duplicate members; collection C0 keyed by point/relation/area/itself), only states valid as given. " +
 			"Static cases build the state; history cases start from the state (added feature by feature to BasicMutableWorld, or as the static basic base of a MutableOverlayWorld) and apply every sequence of AddFeature(variant) operations up to the depth whose every intermediate state is valid (adds and replacements, incl. replacement by a version that no longer refers and by an identical version); the tag-edit family interleaves them with AddTag (searchable '#x' / plain 'note') and RemoveTag (the key the variant carries) on the point, a path, the area and a relation, which leave the model's referrers unchanged. " +
-			"After each sequence every reference query (FindReferences untyped / per type / path+relation, FindRelationsByFeature, FindCollectionsByFeature, FindAreasByPoint) on 11 present and absent IDs is compared with worldkit Ref.Referrers of the model state; non-trivial = some queried feature has a referrer.",
+			"The repeated-reference menu fills the same slots on six points with referrers that reference a feature more than once: path W0 open / revisiting p1 then on to p3 / closed / figure of eight through p1 then on to p4 / out-and-back ending on the repeat / two revisits / passing p0 three times; path W1 closed / revisiting p2 then on to p4 / open; area A0 by w0|w1 / w0|w0|w1 / w0|w0 / w0|w1|w0 / w0; relation R0 [p0,p1,p2] / [p0,p1,p0,p2] / [p0,p0,p2] same role / [w0,w0,p3] same role / [p1,p0,p0] / [w0,w1,w0,a0] / [p0,p0,p0,p1] same role / [p2,p2,w1]; relation R1 [r0,r0,p3] / [p0,r0] / [a0,a0,w1] / [r0,p4,r0,p5] same role; collection C0 {p0,p1} / {p0,p0,p1} / {r0,w0,r0,a0} / {p1,p0,p0} (no reference cycles; small menu = the leading 2/5/3/3/5/3/3 variants incl. absent); its valid states are built statically and used as start states of histories over AddFeature(variant of the repeat menu) + the same 12 tag edits, so that referrers are added with a repeat, replaced by versions with / without the repeat or with the repeat elsewhere, and copied between base and overlay by tag edits and point replacements. " +
+			"After each sequence every reference query (FindReferences untyped / per type / path+relation, FindRelationsByFeature, FindCollectionsByFeature, FindAreasByPoint) on 11 (repeat menu: 14, all six points) present and absent IDs is compared with worldkit Ref.Referrers of the model state (a set: each referrer once however often it references the feature); non-trivial = some queried feature has a referrer.",
 		Assumptions: []string{
 			"compact world checked against the chains its own queries define (relations by direct membership, paths of a point, areas of a point through its paths; no collections) — narrower than the transitive closure of the in-memory worlds; the sections where the two definitions differ are counted, not alarmed",
 			"edits are valid as a whole state (worldkit.ValidSubset keeps everything); rejected edits are C13's subject",
@@ -1463,8 +1500,8 @@ func main() {
 		},
 		CaseTimeout:      60e9, // cases take well under a second of CPU; the shared machine is heavily loaded
 		WorkerEnv:        []string{"GOMAXPROCS=2", "GOGC=400"},
-		QuickDeadline:    900e9, // the shared machine runs at a load of 100+; about 3 minutes of CPU when it is quiet
-		ThoroughDeadline: 25 * 60e9,
+		QuickDeadline:    900e9,     // the shared machine runs at a load of 100+; about 3 minutes of CPU when it is quiet
+		ThoroughDeadline: 75 * 60e9, // about 45 minutes of CPU on a quiet machine; the shared one runs at a load of 100+
 		Chunk:            4,
 		Build:            build,
 	})
